@@ -166,4 +166,39 @@ theorem slotRun_inv {π : Type} {sel : Selector π} (hsel : SelOK sel) {thr : XF
       have : count + 1 + k = count + (k + 1) := by omega
       simpa [this] using h2
 
+/-! ### the whole state -/
+
+theorem stateStep_good {π : Type} {sel : Selector π} (hsel : SelOK sel) {thr : XF} (hthr : thr.isNaN = false)
+    (itv count : Nat) (Good : π → Prop) (ss : List (Slot π)) (ins : List (Inp π))
+    (h0 : ∀ s ∈ ss, Good s.precond)
+    (hroot : ∀ i ∈ ins, i.err.isNaN = false → i.err.lt thr = true → Good i.cand) :
+    ∀ s ∈ stateStep sel thr itv count ss ins, Good s.precond := by
+  induction ss generalizing ins with
+  | nil => intro s hs; simp [stateStep] at hs
+  | cons a as ih =>
+    cases ins with
+    | nil => intro s hs; simp [stateStep] at hs
+    | cons i is =>
+      intro s hs
+      simp only [stateStep, List.zipWith_cons_cons, List.mem_cons] at hs
+      rcases hs with rfl | hs
+      · rcases slotStep_spec hsel hthr itv count a i with h | ⟨h, _, h2, h3⟩
+        · rw [h]; exact h0 a (List.mem_cons_self ..)
+        · rw [h]; exact hroot i (List.mem_cons_self ..) h2 h3
+      · exact ih is (fun s hs => h0 s (List.mem_cons_of_mem _ hs))
+          (fun j hj => hroot j (List.mem_cons_of_mem _ hj)) s hs
+
+theorem stateRun_good {π : Type} {sel : Selector π} (hsel : SelOK sel) {thr : XF} (hthr : thr.isNaN = false)
+    (itv : Nat) (Good : π → Prop) :
+    ∀ (hist : List (List (Inp π))) (count : Nat) (ss : List (Slot π)),
+      (∀ s ∈ ss, Good s.precond) →
+      (∀ ins ∈ hist, ∀ i ∈ ins, i.err.isNaN = false → i.err.lt thr = true → Good i.cand) →
+      ∀ s ∈ stateRun sel thr itv count ss hist, Good s.precond
+  | [], _, _, h0, _ => h0
+  | ins :: rest, count, ss, h0, hroot => by
+    show ∀ s ∈ stateRun sel thr itv (count + 1) (stateStep sel thr itv count ss ins) rest, _
+    exact stateRun_good hsel hthr itv Good rest (count + 1) _
+      (stateStep_good hsel hthr itv count Good ss ins h0 (hroot ins (List.mem_cons_self ..)))
+      (fun ins' h' => hroot ins' (List.mem_cons_of_mem _ h'))
+
 end PrecondVerif.Gate
